@@ -1,0 +1,79 @@
+// Copyright © 2024 Attestant Limited.
+// Licensed under the Apache License, Version 2.0 (the "License");
+// you may not use this file except in compliance with the License.
+// You may obtain a copy of the License at
+//
+//     http://www.apache.org/licenses/LICENSE-2.0
+//
+// Unless required by applicable law or agreed to in writing, software
+// distributed under the License is distributed on an "AS IS" BASIS,
+// WITHOUT WARRANTIES OR CONDITIONS OF ANY KIND, either express or implied.
+// See the License for the specific language governing permissions and
+// limitations under the License.
+
+//go:build verif
+
+package standard
+
+import (
+	"context"
+	"time"
+
+	eth2client "github.com/attestantio/go-eth2-client"
+	"github.com/attestantio/go-eth2-client/spec/phase0"
+	"github.com/attestantio/vouch/services/accountmanager"
+	"github.com/attestantio/vouch/services/chaintime"
+	"github.com/attestantio/vouch/services/scheduler"
+	"github.com/attestantio/vouch/services/synccommitteeaggregator"
+	"github.com/attestantio/vouch/services/synccommitteemessenger"
+	"github.com/attestantio/vouch/services/synccommitteesubscriber"
+	"github.com/rs/zerolog"
+)
+
+// VerifConfigC15 carries what the sync committee scheduling path of the controller uses.
+type VerifConfigC15 struct {
+	ChainTime                     chaintime.Service
+	Scheduler                     scheduler.Service
+	SyncCommitteeDutiesProvider   eth2client.SyncCommitteeDutiesProvider
+	ValidatingAccountsProvider    accountmanager.ValidatingAccountsProvider
+	SyncCommitteeMessenger        synccommitteemessenger.Service
+	SyncCommitteeAggregator       synccommitteeaggregator.Service
+	SyncCommitteesSubscriber      synccommitteesubscriber.Service
+	SlotDuration                  time.Duration
+	SlotsPerEpoch                 uint64
+	EpochsPerSyncCommitteePeriod  uint64
+	AltairForkEpoch               phase0.Epoch
+	MaxSyncCommitteeMessageDelay  time.Duration
+	SyncCommitteeAggregationDelay time.Duration
+}
+
+// NewForVerifC15 builds a controller without tickers, event subscriptions or start-up scheduling,
+// with exactly the fields that scheduleSyncCommitteeMessages and the jobs it creates read.
+func NewForVerifC15(cfg *VerifConfigC15) *Service {
+	return &Service{
+		log:                           zerolog.Nop(),
+		slotDuration:                  cfg.SlotDuration,
+		slotsPerEpoch:                 cfg.SlotsPerEpoch,
+		epochsPerSyncCommitteePeriod:  cfg.EpochsPerSyncCommitteePeriod,
+		chainTimeService:              cfg.ChainTime,
+		syncCommitteeDutiesProvider:   cfg.SyncCommitteeDutiesProvider,
+		validatingAccountsProvider:    cfg.ValidatingAccountsProvider,
+		scheduler:                     cfg.Scheduler,
+		syncCommitteeMessenger:        cfg.SyncCommitteeMessenger,
+		syncCommitteeAggregator:       cfg.SyncCommitteeAggregator,
+		syncCommitteesSubscriber:      cfg.SyncCommitteesSubscriber,
+		maxSyncCommitteeMessageDelay:  cfg.MaxSyncCommitteeMessageDelay,
+		syncCommitteeAggregationDelay: cfg.SyncCommitteeAggregationDelay,
+		handlingAltair:                true,
+		altairForkEpoch:               cfg.AltairForkEpoch,
+	}
+}
+
+// ScheduleSyncCommitteeMessagesC15 calls scheduleSyncCommitteeMessages.
+func (s *Service) ScheduleSyncCommitteeMessagesC15(ctx context.Context,
+	epoch phase0.Epoch,
+	validatorIndices []phase0.ValidatorIndex,
+	notCurrentSlot bool,
+) {
+	s.scheduleSyncCommitteeMessages(ctx, epoch, validatorIndices, notCurrentSlot)
+}
